@@ -316,6 +316,8 @@ type objectsetScenario struct {
 	// Passes: number of consecutive Reconcile passes of the target (fresh controller and cache each; default 1).
 	// The observation of pass i+1 is reported in More[i]; its pre-state is the post-state of pass i.
 	Passes int `json:"passes,omitempty"`
+	// Reuse: all passes run on ONE controller instance (a long-lived manager process) instead of a fresh one per pass.
+	Reuse bool `json:"reuse,omitempty"`
 }
 
 type objectsetObs struct {
@@ -461,13 +463,24 @@ func init() {
 			n, _ := strconv.Atoi(k)
 			s.Faults[n] = v
 		}
+		var shared *objectsets.GenericObjectSetController
+		sharedCache := &fakeCache{s: s}
 		runPass := func() objectsetObs {
 			cache := &fakeCache{s: s}
 			var c *objectsets.GenericObjectSetController
-			if sc.Target.Kind == 2 {
-				c = objectsets.NewClusterObjectSetController(s, logr.Discard(), scheme, cache, s, nil, s.RESTMapper())
+			if sc.Reuse && shared != nil {
+				// one long-lived controller instance for all passes: whatever it keeps in memory between passes is in the run
+				c, cache = shared, sharedCache
 			} else {
-				c = objectsets.NewObjectSetController(s, logr.Discard(), scheme, cache, s, nil, s.RESTMapper())
+				if sc.Reuse {
+					cache = sharedCache
+				}
+				if sc.Target.Kind == 2 {
+					c = objectsets.NewClusterObjectSetController(s, logr.Discard(), scheme, cache, s, nil, s.RESTMapper())
+				} else {
+					c = objectsets.NewObjectSetController(s, logr.Discard(), scheme, cache, s, nil, s.RESTMapper())
+				}
+				shared = c
 			}
 			s.ResetPass()
 			key := setKey(sc.Target)
